@@ -132,6 +132,10 @@ QNorm(A) == LET g == GcdI(GcdI(GcdI(VGcd(A.m[1]), VGcd(A.m[2])), VGcd(A.m[3])), 
             [m |-> <<VDivExact(g, A.m[1]), VDivExact(g, A.m[2]), VDivExact(g, A.m[3])>>, d |-> A.d \div g]
 QMulN(A, B) == QNorm(QMul(A, B))
 QYaw(c, s, d) == [m |-> RotZ(c, s, d), d |-> d]
+\* the orientation that, composed on the right of the parent P (i.e. expressed in P's frame), gives the
+\* global orientation T:  P * LocalFor(P, T) = T.  (NOT T * P^-1: that would give P * T * P^-1.)
+LocalFor(P, T) == Mul(Inverse(P), T)
+QLocalFor(P, T) == QMul(QInv(P), T)
 QPitch(c, s, d) == [m |-> RotX(c, s, d), d |-> d]
 QRoll(c, s, d) == [m |-> RotY(c, s, d), d |-> d]
 \* Pythagorean angles (cos, sin, den); the angle is atan2(sin, cos)
@@ -210,6 +214,12 @@ LemmaInverseOfProduct == \A A \in Rot24, B \in Rot24 : Inverse(Mul(A, B)) = Mul(
 AssocProbes == {RotZ4(1), RotX4(1), RotY4(1), Rot24Seq[12], Rot24Seq[23]}
 LemmaAssoc == \A A \in Rot24, B \in Rot24, C \in AssocProbes : Mul(Mul(A, B), C) = Mul(A, Mul(B, C))
 LemmaNonAbelian == \E A \in Rot24, B \in Rot24 : Mul(A, B) # Mul(B, A)
+\* local angles invert composition; the conjugate P * T * P^-1 is a different rotation exactly when P and T
+\* do not commute (which needs pitch or roll: two pure yaws always commute)
+LemmaLocal == /\ \A P \in Rot24, T \in Rot24 :
+                    /\ Mul(P, LocalFor(P, T)) = T
+                    /\ (Mul(P, Mul(T, Inverse(P))) = T) <=> (Mul(P, T) = Mul(T, P))
+              /\ \A j \in Quarter, k \in Quarter : Mul(RotZ4(j), RotZ4(k)) = Mul(RotZ4(k), RotZ4(j))
 ProbeVecs == {Ey, <<1, 2, 3>>, <<-2, 5, 7>>}
 LemmaAction == \A A \in Rot24, B \in Rot24 : \A v \in ProbeVecs :
                   /\ Apply(Mul(A, B), v) = Apply(A, Apply(B, v))
@@ -265,7 +275,7 @@ LemmaBoxes == LET U == [lo |-> <<-2, -2, -2>>, hi |-> <<2, 2, 2>>] IN
                               CHOOSE z \in {c[3] : c \in cs} : \A c \in cs : z >= c[3]>>]
 
 Lat3Lemmas == /\ LemmaCount /\ LemmaTables /\ LemmaClosed /\ LemmaIdentity /\ LemmaInverse /\ LemmaInverseOfProduct
-              /\ LemmaAssoc /\ LemmaNonAbelian /\ LemmaAction /\ LemmaHeading /\ LemmaIntrinsic
+              /\ LemmaAssoc /\ LemmaNonAbelian /\ LemmaLocal /\ LemmaAction /\ LemmaHeading /\ LemmaIntrinsic
               /\ LemmaEulerOnto /\ LemmaEulerCanon /\ LemmaGimbal /\ LemmaEulerFlip /\ LemmaPyth /\ LemmaBoxes
 
 ASSUME Lat3Lemmas
